@@ -90,6 +90,8 @@ def show(t, depth=0):
         return f"*{show(t.x, d)}"
     if o == "dstar":
         return f"**{show(t.x, d)}"
+    if o == "yield":
+        return f"yield({show(t.x, d)})"
     if o == "raise":
         return f"raise({show(t.exc, d)})"
     if o == "store":
@@ -250,6 +252,7 @@ class Evaluator:
         self.max_depth = max_depth
         self.effects = []  # (kind, term) side effects seen while evaluating (guards, expression statements)
         self._inline_cache = {}
+        self.loops = []  # every loop-carried term created, in creation order (rules look a variable's loop up by (stmt, name))
         self._ctx = (0, ())  # (inlining depth, stack of function nodes being inlined) of the code being evaluated
 
     # ------------------------------------------------------------------ expressions
@@ -368,6 +371,9 @@ class Evaluator:
 
     def e_JoinedStr(self, n, sc, mod):
         return T("fstr", n, mod)
+
+    def e_Yield(self, n, sc, mod):
+        return T("yield", n, mod, x=self.ev(n.value, sc, mod) if n.value is not None else const(None))
 
     def e_NamedExpr(self, n, sc, mod):
         v = self.ev(n.value, sc, mod)
@@ -548,14 +554,15 @@ class Evaluator:
                 only_mutated = _only_mutated(st.body, names)
                 names = [nm for nm in names if not (nm in only_mutated and sc.lookup(nm) is None)]
                 init = {nm: sc.lookup(nm) for nm in names}
+                # the iterable of a `for` is evaluated once, before the first iteration (pre-loop values);
+                # the test of a `while` is re-evaluated every iteration (loop-carried values)
+                it = self.ev(st.iter, sc, mod) if isinstance(st, ast.For) else None
                 for nm in names:
                     sc.vars[nm] = T("loopvar", st, mod, name=nm, init=init[nm])
                 if isinstance(st, ast.For):
-                    it = self.ev(st.iter, sc, mod)
                     self.bind_target(st.target, T("iterelem", st.iter, mod, src=it), sc, mod)
                     cond = None
                 else:
-                    it = None
                     cond = self.ev(st.test, sc, mod)
                 r = self.run(_desugar_continue(list(st.body)), sc, mod)
                 for nm in names:
@@ -563,6 +570,7 @@ class Evaluator:
                     lp = T(
                         "loop", st, mod, name=nm, init=init[nm] if init[nm] is not None else unknown(f"unbound:{nm}"), next=nxt, it=it, cond=cond
                     )
+                    self.loops.append(lp)
                     sc.vars[nm] = _canon_loop(lp) if r is None else lp
                 if r is not None:
                     r2 = self.run(rest, sc, mod)
@@ -916,7 +924,7 @@ def children(t):
         return [x for x in (f["init"], f["next"], f.get("it"), f.get("cond")) if x is not None]
     if o == "iterelem":
         return [f["src"]]
-    if o in ("star", "dstar"):
+    if o in ("star", "dstar", "yield"):
         return [f["x"]]
     if o == "raise":
         return [f["exc"]]
